@@ -120,6 +120,7 @@ type pathState struct {
 	harness                  string
 	curPos                   func() string
 	writes                   []string
+	resets  []string // atomic stores / swaps on package-level state while tracking
 	trackW                   bool
 	gcells                   map[*value]bool
 	gmaps                    map[*omap]bool
